@@ -345,6 +345,31 @@ def r08_8(rep, M, rid):
                       "positions never match the atoms and the call fails with ValueError (e.g. a phosphorene-like Pmna layer)", M.where(pub, calls[0]))
 
 
+def r08_tol(rep, M, rid):
+    """tolerance agreement inside the solver: the letter of an atom was assigned by spglib within the symmetry tolerance, so every
+    position comparison that accepts / rejects that atom for the letter's expressions must use the same tolerance"""
+    fn = M.func(FQ)
+    ps = M.params(FQ)
+    if "precision" not in ps:
+        raise AnalysisError("_get_wyckoff_sets: parameter `precision` not found")
+    calls = [c for c in ast.walk(fn) if isinstance(c, ast.Call) and isinstance(c.func, ast.Attribute) and c.func.attr == "_search_periodic_positions"]
+    if len(calls) < 2:
+        raise AnalysisError("_get_wyckoff_sets: position comparisons (_search_periodic_positions) not found")
+    sp = M.params(SA + "._search_periodic_positions")
+    k = [x for x in sp if x != "self"].index("accuracy") if "accuracy" in sp else 3
+    for c in calls:
+        a = c.args[k] if len(c.args) > k else next((kw.value for kw in c.keywords if kw.arg == "accuracy"), None)
+        if a is not None and norm(a) == "precision":
+            rep.ok(rid, f"_get_wyckoff_sets: `{norm(c)[:50]}...` compares within the symmetry tolerance")
+        elif isinstance(a, ast.Constant):
+            rep.violation(rid, f"_get_wyckoff_sets: hard-coded tolerance {a.value!r} in `{norm(c)[:45]}`", f"this comparison uses the literal {a.value!r} while the letters were "
+                          "assigned (by spglib) and the final verification is done within `precision` = symmetry_tol: an atom that lies within the symmetry tolerance of a "
+                          "neighbouring position of equal multiplicity gets that letter, is then rejected here, and the call fails with ValueError although a parameter "
+                          "reproducing the atom within the tolerance exists", M.where(FQ, c))
+        else:
+            rep.violation(rid, f"_get_wyckoff_sets: tolerance of `{norm(c)[:45]}`", f"compares within `{norm(a) if a is not None else None}`, not within `precision`", M.where(FQ, c))
+
+
 def r08_8b(rep, M, rid):
     """second half of the setting typestate: besides the axis order, the origin and the scale along the non-periodic axis of a 2D
     system are changed after the letters have been fixed (centring translation, cell minimisation); a letter whose expression has
@@ -433,6 +458,18 @@ def run(rep, ctx):
     with rep.guard("R08.10"):
         TO.letter_reference(rep, ctx.tables, "R08.10")
     rep.floor("R08.10", 1700)
+    rep.rule("R08.11", "spglib is given the analysed structure unmodified with the analyzer's tolerance, and its standardised lattice / positions / types are used without a change of convention (shared with C05)")
+    with rep.guard("R08.11"):
+        from . import shared as _shb
+        _shb.spglib_boundary(rep, ctx.model, "R08.11")
+    rep.floor("R08.11", 7)
+    rep.rule("R08.12", "every tabulated normalizer is an automorphism of its group and an isometry of the lattice (the normalised cell is the same crystal in the same space group; shared with C05/C14)")
+    from . import shared as _shn
+    _shn.normalizer_tables(rep, ctx.tables, "R08.12", perm=True)
+    rep.floor("R08.12", 2400)
+    rep.rule("R08.13", "every position comparison of the parameter solver uses the symmetry tolerance the letters were assigned with")
+    with rep.guard("R08.13"):
+        r08_tol(rep, ctx.model, "R08.13")
     rep.floor("R08.1", 26000)
     rep.floor("R08.2", 1500)
     rep.floor("R08.3", 1700)
